@@ -3,6 +3,7 @@ C05 — Committing a sub-editor rewrites exactly the selected region.
 -/
 import RosedVerif.Model.InstAFacts
 import RosedVerif.Model.LinesLemmas
+import RosedVerif.Model.EditorHistories
 namespace RosedVerif.Props
 open RosedVerif
 
@@ -51,5 +52,68 @@ theorem C05_unedited (ed : Editor Int) (s e : Int) :
   rw [hsub, selectClusters_concat cxA_WF] at h2
   rw [h2]
   cases ed <;> rfl
+
+end RosedVerif.Props
+
+namespace RosedVerif.Props
+open RosedVerif
+
+/-- `String()` / `CommitAll()` on a well-cut Editor at ANY nesting depth equal committing through all
+ancestors (`Editor.fullText`); `CommitAll` returns the root carrying the ROOT's options -/
+theorem C05_string_all_ancestors (ed : Editor Int) (h : ed.WellCut cxA) :
+    ed.string cxA = .ok (ed.fullText cxA) ∧
+      ed.commitAll cxA = .ok (.root (ed.fullText cxA) ed.rootOpts) :=
+  ⟨string_eq_fullText cxA_Sane h, commitAll_eq_fullText cxA_Sane h⟩
+
+/-- without any hypothesis: whenever `String()` returns, it returns `fullText` -/
+theorem C05_string_only_fullText (ed : Editor Int) (s : List Int) (h : ed.string cxA = .ok s) :
+    s = ed.fullText cxA := string_ok_eq_fullText h
+
+/-- the defining equation of `fullText`: the parent's, with bytes `[a, b)` replaced -/
+theorem C05_fullText_sub (t : List Int) (o : Options Int) (p : Editor Int) (i j : Nat) :
+    (Editor.sub t o p (byteOff cxA p.text i : Nat) (byteOff cxA p.text j : Nat)).fullText cxA =
+      (p.withText (p.text.take i ++ t ++ p.text.drop j)).fullText cxA :=
+  Editor.fullText_sub_byteOff cxA_Sane t o p i j
+
+/-- nested regions: whatever text and options a well-cut sub-editor has acquired, `String()` returns
+normally (no `Err.invalidUtf8`, no panic) and the result is that text between surroundings that do
+not depend on it — every byte of every ancestor outside the selected regions is unchanged and in
+place -/
+theorem C05_nested_regions (ed : Editor Int) (h : ed.WellCut cxA) :
+    ∃ pre suf : List Int, ∀ (t' : List Int) (o' : Options Int),
+      ((ed.withText t').withOpts o').string cxA = .ok (pre ++ t' ++ suf) :=
+  string_region cxA_Sane h
+
+/-- … with the surroundings named: `outerPre`/`outerSuf` are functions of the ancestor chain only -/
+theorem C05_nested_regions_explicit (ed : Editor Int) (h : ed.WellCut cxA) (t' : List Int) :
+    (ed.withText t').fullText cxA = ed.outerPre cxA ++ t' ++ ed.outerSuf cxA :=
+  fullText_nested cxA_Sane h t'
+
+/-- an unedited selection (`Chars*`, `Lines*`; all positions; receiver at any depth, well-cut or
+not) commits to the very Editor it was cut from and converts back to the same text -/
+theorem C05_unedited_any_depth (ed r : Editor Int) (h : ed.Selects cxA r) :
+    r.commit cxA = .ok ed ∧ r.fullText cxA = ed.fullText cxA ∧ r.string cxA = ed.string cxA :=
+  ⟨h.commit_eq, h.fullText_eq, h.string_eq⟩
+
+/-- … through any number of nested selections -/
+theorem C05_unedited_nested (ed r : Editor Int) (h : Editor.SelectsStar cxA ed r) :
+    r.fullText cxA = ed.fullText cxA ∧ r.string cxA = ed.string cxA := h.fullText_eq
+
+/-- after ANY program over the public operations every Editor in the pool is well-cut, so `String()`
+is total on it and equals committing through all ancestors -/
+theorem C05_reachable_wellcut (ops : List (EdOp Int)) :
+    ∀ ed ∈ runEd cxA ops, ed.WellCut cxA ∧ ed.string cxA = .ok (ed.fullText cxA) :=
+  fun ed h => ⟨runEd_wellCut cxA_Sane ops ed h, (runEd_string cxA_Sane ops ed h).1⟩
+
+/-- every reachable sub-editor, whatever has been done to it, commits into exactly its region
+`[i, j)`, `i ≤ j ≤ length`, of the stored parent -/
+theorem C05_reachable_commit_region (ops : List (EdOp Int)) (t : List Int) (o : Options Int)
+    (p : Editor Int) (a b : Int) (h : Editor.sub t o p a b ∈ runEd cxA ops) :
+    ∃ i j : Nat, i ≤ j ∧ j ≤ p.text.length ∧ a = (byteOff cxA p.text i : Nat) ∧
+      b = (byteOff cxA p.text j : Nat) ∧
+      ∀ (t' : List Int) (o' : Options Int),
+        (Editor.sub t' o' p a b).commit cxA =
+          .ok (p.withText (p.text.take i ++ t' ++ p.text.drop j)) :=
+  runEd_commit_region cxA_Sane ops t o p a b h
 
 end RosedVerif.Props
